@@ -149,6 +149,22 @@ func (sc *scenario) resumeCheck() {
 	}
 	sc.tag("resume-check")
 	got, _ := sc.inputDelivered()
+	if sc.midInjected && len(sc.expMid) > 0 {
+		have := 0
+		for _, e := range sc.expMid {
+			if contains(got, e) {
+				have++
+			}
+		}
+		switch {
+		case have == len(sc.expMid):
+			sc.tag("input-while-suspended-delivered-after-resume")
+		case have == 0:
+			sc.tag("input-while-suspended-not-delivered")
+		default:
+			sc.tag("input-while-suspended-partly-delivered")
+		}
+	}
 	n := len(sc.exp2)
 	if n > 0 {
 		if len(got) < n || strings.Join(got[len(got)-n:], ",") != strings.Join(sc.exp2, ",") {
@@ -196,7 +212,8 @@ func (sc *scenario) resumeCheck() {
 // finalOracles: what holds in every run, whatever was shut down when.
 func (sc *scenario) finalOracles() {
 	got, gidx := sc.inputDelivered()
-	exp := append(append([]string{}, sc.exp...), sc.exp2...)
+	exp := append(append([]string{}, sc.exp...), sc.expMid...)
+	exp = append(exp, sc.exp2...)
 	m := match(got, exp)
 	if !sc.expire() {
 		for i, k := range m {
@@ -277,7 +294,9 @@ func (sc *scenario) finalOracles() {
 			for x, gi := range gidx {
 				if gi == j && m[x] >= 0 {
 					k := m[x]
-					if k < len(sc.exp) {
+					if k >= len(sc.exp) && k < len(sc.exp)+len(sc.expMid) {
+						// arrived while suspended: no tighter lower bound than the start of the run
+					} else if k < len(sc.exp) {
 						if k < len(sc.expChunk) {
 							sc.fmu.Lock()
 							if t, ok := sc.injectAt[sc.expChunk[k]]; ok {
